@@ -125,6 +125,9 @@ def random_case(rng, lf, tier, check=True):
     opts["threads"] = rng.pick([None, 1, 2, 16])
     opts["spaces"] = rng.chance(1, 6)
     opts["verbose"] = rng.chance(1, 12)
+    if rng.chance(1, 8):
+        # a range given together with everything else (the whole text, or its first part)
+        opts["range"] = rng.pick([[0, None], [None, 1000000], [0, 40], [10, None]])
     use_globs = rng.chance(1, 6)
     if use_globs:
         opts["globs"] = rng.pick([["*.lua"], ["*.luau"], ["*.lua", "*.luau"], ["*.lua", "!skip_*.lua"], ["*.lua", "*.luau", "!skip_*"]])
